@@ -1093,10 +1093,11 @@ func (c1 complexConst) binaryOp(op ast.OperatorType, c2 constant) (constant, err
 		return d1.binaryOp(op, d2)
 	}
 	switch op {
-	case ast.OperatorEqual:
-		re, _ := n1.r.binaryOp(op, n2.r)
-		im, _ := n1.i.binaryOp(op, n2.i)
-		return re.(boolConst) && im.(boolConst), nil
+	case ast.OperatorEqual, ast.OperatorNotEqual:
+		re, _ := n1.r.binaryOp(ast.OperatorEqual, n2.r)
+		im, _ := n1.i.binaryOp(ast.OperatorEqual, n2.i)
+		eq := re.(boolConst) && im.(boolConst)
+		return boolConst(eq == (op == ast.OperatorEqual)), nil
 	case ast.OperatorAddition, ast.OperatorSubtraction:
 		re, _ := n1.r.binaryOp(op, n2.r)
 		im, _ := n1.i.binaryOp(op, n2.i)
